@@ -48,7 +48,11 @@ class ConnCtx(FsmCtx):
         thread_due = [i for i, c in enumerate(due) if c.kind == "thread" and c.time <= w.now()]
         if thread_due:
             # a call queued with callFromThread runs in the reactor's next iteration: a whole new session
-            # cannot come up in between
+            # cannot come up in between - but one more REST request can be served before it
+            if not getattr(self, "gen_squeezed", False) and rng.chance(0.25):
+                self.gen_squeezed = True
+                return ["rest", "GET", URL + rng.pick(["manual-stop", "manual-start"]), "ok"]
+            self.gen_squeezed = False
             return ["fire", thread_due[0]]
         if cfg.get("p_hfail") and w.handler_fail_in is None and rng.chance(cfg["p_hfail"]):
             return ["hfail", rng.randrange(1, 4)]
@@ -72,6 +76,9 @@ class ConnCtx(FsmCtx):
         choices.append(("start", cfg["w_rest"]))
         if w.state() == "ESTABLISHED":
             choices.append(("rest_send", max(cfg["w_rest"], 0.5) * 2))
+        elif w.conns:
+            # (also outside a session: a refused request writes nothing anywhere)
+            choices.append(("rest_send", cfg["w_rest"] * 0.5))
         kind = rng.weighted(choices)
         if kind == "rest_send":
             # an operator announcement: it belongs on the connection the session runs on
@@ -240,6 +247,17 @@ class StopCtx(FsmCtx):
             self.stage_left = {0: rng.randrange(0, 14), 1: 1, 2: rng.randrange(1, 25), 3: 1}[self.stage]
         self.stage_left -= 1
         if self.stage == 1:
+            if w.state() == "ESTABLISHED" and not getattr(self, "gen_presend", False) and rng.chance(0.25):
+                # the operator's last announcement / refresh request and the stop arrive back to back (no reactor
+                # turn in between): whatever still goes out must go out BEFORE the Cease
+                self.gen_presend = True
+                self.stage_left += 1
+                self.stats["gen:rest_send_right_before_stop"] += 1
+                if rng.chance(0.5):
+                    return ["rest", "POST", URL + "send/route-refresh", "ok", {"afi": 1, "safi": 1, "res": 0}]
+                return ["rest", "POST", URL + "send/update", "ok",
+                        {"attr": {"1": 0, "2": [], "3": "10.0.0.1", "5": 100}, "nlri": ["10.%d.0.0/16" % rng.randrange(256)]}]
+            self.gen_presend = False
             return ["rest", "GET", URL + "manual-stop", "ok"]
         if self.stage == 3:
             return ["rest", "GET", URL + "manual-start", "ok"]
@@ -313,6 +331,16 @@ class StopCtx(FsmCtx):
         w = self.world
         is_stop = ("stop",) in evs
         is_start = ("start",) in evs
+        ac = getattr(self, "await_connect", None)
+        if ac is not None:
+            if any(t[0] == "connect" for t in toks):
+                self.await_connect = None
+            elif w.now() > ac[0] + 1e-9 or is_stop:
+                self.await_connect = None
+                if not is_stop:
+                    raise Violation("C13", "start", "stopped/no-connect-at-once/got:%s" % (",".join(ac[1]) or "nothing"),
+                                    "manual start from the stopped state at t=%.3f must begin connecting at once; time has passed "
+                                    "to %.3f without a connection attempt (state %s)" % (ac[0], w.now(), w.state()))
         st_before = self.state_before
         names = [self.abs_tok(t) for t in toks]
         if is_stop:
@@ -346,13 +374,11 @@ class StopCtx(FsmCtx):
         elif is_start:
             if self.op_stopped:
                 self.stats["start_from_stopped"] += 1
-                if not any(t[0] == "connect" for t in toks):
-                    raise Violation("C13", "start", "stopped/no-connect-at-once/got:%s" % (",".join(names) or "nothing"),
-                                    "manual start from the stopped state must begin connecting at once; agent did %s, state %s"
-                                    % (names, w.state()))
                 self.op_stopped = False
                 self.t_started = w.now()
-                self.await_connect = None
+                # "at once" = before any time passes: a connect made by a zero-delay call in the next reactor turn
+                # still counts; time passing (or a new stop) without a connect does not
+                self.await_connect = None if any(t[0] == "connect" for t in toks) else (w.now(), names)
             else:
                 self.stats["start_in_" + st_before] += 1
                 if st_before in ("OPENSENT", "OPENCONFIRM", "ESTABLISHED"):
@@ -541,8 +567,12 @@ class HealCtx(FsmCtx):
         # the switch completes only when the recovery session is up (the old connection's teardown is slow)
         for k, c in enumerate(live):
             if c.closing():
+                nt_ = w.reactor.next_time()
                 if cfg.get("late_cdone") and c.cid < self.first_coop_cid and self.t_estab is None \
-                        and (w.reactor.next_time() is not None or any(x.state == "connecting" or x.readable() for x in live)):
+                        and ((nt_ is not None and nt_ <= self.liveness_deadline())
+                             or any(x.state == "connecting" or x.readable() for x in live)):
+                    # (held back only while the agent has something to do within the bound: if it waits for this
+                    # close before it reconnects, the close completes now)
                     continue
                 if cfg.get("late_cdone") and c.cid < self.first_coop_cid and self.t_estab is not None:
                     self.stats["gen:close_of_old_connection_completes_after_recovery"] += 1
@@ -781,7 +811,7 @@ class HealProfile(FsmProfile):
         cfg["peer_open"] = base.gen_open(rng, cfg, "valid", hold=cfg["peer_hold"]).hex()
         if rng.chance(0.1):
             cfg["handler"] = "default"
-            cfg["write_disk"] = True
+            cfg["write_disk"] = rng.chance(0.7)
             cfg["write_keepalive"] = rng.chance(0.5)
             cfg["rotate_bytes"] = rng.pick([200, 600, 2000])
             if rng.chance(0.5):
@@ -834,6 +864,13 @@ class StatsCtx(FsmCtx):
                 as4 = bool(getattr(w.factory.fsm.protocol, "fourbytesas", False))
                 msg = rng.pick([rp.encode_keepalive(), base.gen_update(rng, self.cfg, as4), base.gen_update(rng, self.cfg, as4),
                                 rp.encode_route_refresh(1, 1), rp.encode_route_refresh(1, 1, 0, cisco=True)])
+                if rng.chance(0.15):
+                    # the largest legal message: a withdraw-only UPDATE of exactly 4096 octets
+                    wd = ["10.%d.%d.%d/32" % (i // 65536, (i // 256) % 256, i % 256) for i in range(814)]
+                    msg = rp.encode_update(wd, {}, [])
+                    msg = rp.encode_update(wd + {0: [], 1: ["0.0.0.0/0"], 2: ["11.0.0.0/8"], 3: ["11.1.0.0/16"], 4: ["11.1.1.0/24"]}[4096 - len(msg)], {}, []) \
+                        if 0 <= 4096 - len(msg) <= 4 else msg
+                    self.stats["gen:maximum_size_message"] += 1
                 cuts = sorted(set(rng.randrange(1, len(msg)) for _ in range(rng.randrange(1, 4))))
                 self.stats["gen:message_in_several_segments"] += 1
                 return ["send", k, msg.hex(), cuts]
